@@ -988,6 +988,31 @@ class Generator:
                 if ipos is None:
                     raise LostAnchor("%s: anchor /%s/ not found in slice %s" % (file, am.group(1), name))
                 ed.insert(ipos, body + "\n", 1)
+            elif sec["cmd"] == "closure":
+                # R11 inside a slice (same rule as in //@fn)
+                n = int(sec["arg"].split()[0])
+                cl = []
+                q = lo
+                while q < hi:
+                    if src.is_p(q, "|") and (src.is_p(q - 1, "(") or src.is_p(q - 1, ",")) and src.is_id(q + 1) and src.is_p(q + 2, "|"):
+                        cl.append(q)
+                    q += 1
+                if n < 1 or n > len(cl):
+                    raise LostAnchor("%s: slice %s has %d simple closures, directive names closure %d" % (file, name, len(cl), n))
+                c0 = cl[n - 1]
+                depth, q = 0, c0 - 1
+                while q >= lo:
+                    if s[q].kind == PUNCT and s[q].text in ")]}":
+                        depth += 1
+                    elif s[q].kind == PUNCT and s[q].text in "([{":
+                        if depth == 0:
+                            break
+                        depth -= 1
+                    q -= 1
+                close = src.match[q]
+                ed.replace(s[c0].start, s[c0 + 2].end, body.strip() + " {", 1)
+                ed.insert(s[close].start, " }", 1)
+                rules["R11"] = rules.get("R11", 0) + 1
             else:
                 raise SpecError("%s: section %s not supported in //@slice" % (rel, sec["cmd"]))
         if not decl:
